@@ -14,6 +14,7 @@
 //         imm value <v> | imm exc <c> | imm drop             the factory returns future<T>::set_value/.. (no promise)
 //         r value <v> | r exc <c> | r drop                   resolver thread: invokes the shared promise
 //         d                                                  thread destroying the promise after all invocations
+//         cbthrow                                            contract violation: the callback_await callback throws (first call)
 //         sched ...
 //         end
 // Output: op lines `s <tid> <op> slot|owner ...`, semantic lines `alloc heap|stor`, `free heap|stor`, `cb <obs>`,
@@ -50,8 +51,13 @@ static std::vector<std::string> split(const std::string &s) {
 namespace trk {
 thread_local bool on = false;
 static void *blocks[16];
-static int nblocks = 0;
+static std::atomic<int> nblocks{0};
 static int allocs = 0, frees = 0;
+static std::atomic_flag lk = ATOMIC_FLAG_INIT;   // frees also come from exiting threads (outside the baton)
+struct Lock {
+    Lock() { while (lk.test_and_set(std::memory_order_acquire)) {} }
+    ~Lock() { lk.clear(std::memory_order_release); }
+};
 struct Off {
     bool prev;
     Off() : prev(on) { on = false; }
@@ -64,27 +70,37 @@ struct On {
 };
 static void note_alloc(void *p) {
     Off o;
-    if (nblocks < 16) blocks[nblocks++] = p;
-    allocs++;
+    {
+        Lock l;
+        if (nblocks < 16) blocks[nblocks++] = p;
+        allocs++;
+    }
     S().log_line("alloc heap");
 }
 static bool note_free(void *p) {
-    for (int i = 0; i < nblocks; i++)
-        if (blocks[i] == p) {
-            Off o;
-            blocks[i] = blocks[--nblocks];
-            frees++;
-            S().log_line("free heap");
-            return true;
-        }
-    return false;
+    bool hit = false;
+    {
+        Lock l;
+        for (int i = 0; i < nblocks; i++)
+            if (blocks[i] == p) {
+                blocks[i] = blocks[--nblocks];
+                frees++;
+                hit = true;
+                break;
+            }
+    }
+    if (hit) {
+        Off o;
+        S().log_line("free heap");
+    }
+    return hit;
 }
 }  // namespace trk
 
 void *operator new(std::size_t sz) {
     void *p = malloc(sz ? sz : 1);
     if (!p) throw std::bad_alloc();
-    if (trk::on) trk::note_alloc(p);
+    if (trk::on && !vshim::in_shim) trk::note_alloc(p);
     return p;
 }
 void operator delete(void *p) noexcept {
@@ -114,6 +130,7 @@ struct cstor {
 // ---- scenario ----------------------------------------------------------------------------------------------------
 struct Env {
     std::string behav = "ok";
+    bool cb_throws = false;
     int cb_calls = 0, conv_calls = 0;
     void log(const std::string &s) { S().log_line(s); }
     // the converter body shared by all shapes: logs its input, throws or converts
@@ -199,8 +216,7 @@ struct Src {
     future<T> make() {
         trk::Off off;
         if (!imm.empty()) {
-            prom.emplace();
-            published = true;
+            publish(promise<T>());
             if (imm[1] == "value") {
                 if constexpr (std::is_void_v<T>) return future<T>::set_value();
                 else return future<T>::set_value(atoi(imm[2].c_str()));
@@ -278,6 +294,7 @@ struct Case {
     std::vector<std::vector<std::string>> threads;   // g / r / d lines in order
     std::vector<std::string> pre, imm;
     std::vector<int> sched;
+    bool cbthrow = false;
 };
 
 template <typename T>
@@ -297,6 +314,7 @@ struct Runner {
 
     void run(const Case &c) {
         g_env = &env;
+        env.cb_throws = c.cbthrow;
         src.pre = c.pre;
         src.imm = c.imm;
         S().track_only = true;
@@ -311,6 +329,9 @@ struct Runner {
         }
         for (auto &t : c.threads) {
             if (t[0] == "g") S().spawn([this, t, tid] {
+                // construct this thread's coroutine ready queue (a thread_local std::deque) before anything is measured:
+                // per-thread infrastructure, not a helper block (its allocation behaviour is C20's subject)
+                coro_queue::install_queue_and_call([] {});
                 reg();
                 if (t.size() > 1) src.resolver_body(t, 2, tid);
             });
@@ -355,6 +376,7 @@ static void setup_simple(Runner<T> &R, const std::string &adapter, const std::st
                 trk::Off o;
                 env->cb_calls++;
                 env->log("cb " + observe_result(r));
+                if (env->cb_throws && env->cb_calls == 1) throw test_exc(88);   // outside the contract
             };
             // rvalues: callback_await stores an lvalue callback by reference (the caller would have to keep it alive)
             auto fac = factory;
@@ -480,6 +502,7 @@ int main() {
         if (w[0] == "g" || w[0] == "r" || w[0] == "d") { c.threads.push_back(w); continue; }
         if (w[0] == "pre") { c.pre = w; continue; }
         if (w[0] == "imm") { c.imm = w; continue; }
+        if (w[0] == "cbthrow") { c.cbthrow = true; continue; }
         if (w[0] == "sched") { for (std::size_t i = 1; i < w.size(); i++) c.sched.push_back(atoi(w[i].c_str())); continue; }
         if (w[0] != "end") continue;
         std::cout << "case " << c.hdr[1] << std::endl;
